@@ -82,7 +82,7 @@ impl Prop for C09 {
         "fault_enumeration"
     }
     fn rule(&self) -> String {
-        "completeness: consistent chains with tx counts 1..9,15..17,31..33,63..65,100,255,256,257 per block, random --start, 8 coins (block 0 = the real genesis block for bitcoin/testnet3/litecoin/dogecoin/namecoin/myriadcoin/unobtanium, rebuilt offline and hash-verified; --start 1 for noteblockchain), under benign perturbation: must exit 0 with model-equal output. Soundness, enumerated per sampled world and processed height: every single bit of the prev-hash field, of the merkle-root field and of the txid-covered transaction bytes flipped on the simulated disk (one run each), every block swapped for a block of another chain or of another height, and a non-genesis block 0 for all 8 coins: must exit non-zero, leave no final-named file, report that height if a height is reported, and read no block beyond it. Non-trivial = fault applied inside the processed range (or a consistent chain with >=2 txs in some block); distinct by scenario hash.".into()
+        "completeness: consistent chains with tx counts 1..9,15..17,31..33,63..65,100,255,256,257 per block (a sixth of the multi-tx blocks repeat a transaction so that equal hashes are merkle siblings), random --start, 8 coins (block 0 = the real genesis block for bitcoin/testnet3/litecoin/dogecoin/namecoin/myriadcoin/unobtanium, rebuilt offline and hash-verified; --start 1 for noteblockchain), under benign perturbation: must exit 0 with model-equal output. Soundness, enumerated per sampled world and processed height: every single bit of the prev-hash field, of the merkle-root field and of the txid-covered transaction bytes flipped on the simulated disk (one run each), every block swapped for a block of another chain or of another height, and a non-genesis block 0 for all 8 coins: must exit non-zero, leave no final-named file, report that height if a height is reported, and read no block beyond it. Non-trivial = fault applied inside the processed range (or a consistent chain with >=2 txs in some block); distinct by scenario hash.".into()
     }
     fn exhaustive_note(&self) -> Option<String> {
         Some("per sampled block: every bit of the prev field (256), the merkle field (256) and the witness-stripped tx bytes is flipped; worlds are sampled".into())
@@ -95,7 +95,7 @@ impl Prop for C09 {
         }
     }
     fn required_probes(&self, _tier: Tier) -> Vec<&'static str> {
-        vec!["flip_prev", "flip_merkle", "flip_tx", "swap_other_height", "swap_foreign", "bad_genesis", "consistent_from_genesis", "consistent_start_gt_0", "odd_level_tree", "flip_at_first_processed_height", "flip_in_auxpow_block", "narrow_range_of_long_chain", "flip_genesis_header_field"]
+        vec!["flip_prev", "flip_merkle", "flip_tx", "swap_other_height", "swap_foreign", "bad_genesis", "consistent_from_genesis", "consistent_start_gt_0", "odd_level_tree", "flip_at_first_processed_height", "flip_in_auxpow_block", "narrow_range_of_long_chain", "flip_genesis_header_field", "repeated_txid_as_merkle_siblings"]
     }
     fn explore(&self, item: u64, rng: &mut Rng, tier: Tier, h: &mut Harness) -> Result<(), String> {
         let n_cons = if tier == Tier::Quick { 200 } else { 4000 };
@@ -122,7 +122,22 @@ impl Prop for C09 {
                 };
                 let n_tx = if n_tx == 256 && rng.coin() { 257 } else { n_tx };
                 let sw = rng.coin();
-                scn.chain.push(small_block(i as u64, n_tx, rng, sw));
+                let mut b = small_block(i as u64, n_tx, rng, sw);
+                // the same transaction twice: identical hashes as siblings at the leaf level or one level
+                // up. The header commits to the Bitcoin merkle root of exactly this list, so the chain is
+                // consistent in the sense of the statement.
+                if n_tx >= 2 && rng.chance(1, 6) {
+                    let n = b.txs.len();
+                    if n >= 5 && rng.coin() {
+                        b.txs[2] = b.txs[0].clone();
+                        b.txs[3] = b.txs[1].clone();
+                    } else {
+                        let k = 2 * rng.usize(0, (n - 2) / 2);
+                        b.txs[k + 1] = b.txs[k].clone();
+                    }
+                    h.stats.probe("repeated_txid_as_merkle_siblings");
+                }
+                scn.chain.push(b);
             }
             scn.layouts = vec![random_layout(nb, 3, true, rng)];
             scn.index = index_opts(rng);
